@@ -4,9 +4,13 @@ package main
 // settings through the real config loader; thorough: a wall-clock run through Hook.RateLimitWait.
 
 import (
+	"bytes"
 	"context"
+	"encoding/json"
 	"fmt"
 	"math"
+	"net/http"
+	"net/http/httptest"
 	"os"
 	"path/filepath"
 	"sort"
@@ -23,9 +27,12 @@ import (
 	"github.com/flant/shell-operator/pkg/hook/config"
 	"github.com/flant/shell-operator/pkg/hook/task_metadata"
 	htypes "github.com/flant/shell-operator/pkg/hook/types"
+	kemtypes "github.com/flant/shell-operator/pkg/kube_events_manager/types"
 	metricstorage "github.com/flant/shell-operator/pkg/metric_storage"
 	shell_operator "github.com/flant/shell-operator/pkg/shell-operator"
 	"github.com/flant/shell-operator/pkg/task"
+	"github.com/flant/shell-operator/pkg/utils/string_helper"
+	"github.com/flant/shell-operator/pkg/webhook/admission"
 )
 
 func init() { suites["c18"] = runC18 }
@@ -101,6 +108,83 @@ func c18Arrivals(rng *Rng, iv time.Duration, n int) ([]int64, string) {
 	return ts, pat
 }
 
+// c18Kinds are the binding kinds of a hook configuration: three queued ones and the three webhooks
+// (executed on request, outside the queues).
+var c18Kinds = []string{"onStartup", "schedule", "kubernetes", "validating", "mutating", "conversion"}
+
+func c18Has(xs []string, x string) bool {
+	for _, y := range xs {
+		if y == x {
+			return true
+		}
+	}
+	return false
+}
+
+func c18RandomKinds(rng *Rng) []string {
+	var ks []string
+	for _, k := range c18Kinds {
+		if rng.Chance(35) {
+			ks = append(ks, k)
+		}
+	}
+	if len(ks) == 0 {
+		ks = append(ks, PickOne(rng, c18Kinds))
+	}
+	return ks
+}
+
+// c18WebhookYAML is the configuration block of one webhook binding of hook number hi.
+func c18WebhookYAML(kind string, hi int) string {
+	switch kind {
+	case "validating":
+		return fmt.Sprintf("kubernetesValidating:\n- name: %s\n  rules:\n  - operations: [\"CREATE\"]\n    apiGroups: [\"\"]\n    apiVersions: [\"v1\"]\n    resources: [\"pods\"]\n", c18WebhookName(kind, hi))
+	case "mutating":
+		return fmt.Sprintf("kubernetesMutating:\n- name: %s\n  rules:\n  - operations: [\"CREATE\", \"UPDATE\"]\n    apiGroups: [\"apps\"]\n    apiVersions: [\"v1\"]\n    resources: [\"deployments\"]\n", c18WebhookName(kind, hi))
+	case "conversion":
+		return fmt.Sprintf("kubernetesCustomResourceConversion:\n- name: %s\n  crdName: crontabs%d.stable.example.com\n  conversions:\n  - fromVersion: v1alpha1\n    toVersion: v1beta1\n", c18WebhookName(kind, hi), hi)
+	}
+	return ""
+}
+
+func c18WebhookName(kind string, hi int) string {
+	switch kind {
+	case "validating":
+		return fmt.Sprintf("v%d.c18.example.com", hi)
+	case "mutating":
+		return fmt.Sprintf("m%d.c18.example.com", hi)
+	}
+	return fmt.Sprintf("conv%d", hi)
+}
+
+// c18ConfigText: a hook configuration (YAML) with an optional settings block and one binding of
+// every listed kind.
+func c18ConfigText(settings bool, iv time.Duration, b int, kinds []string) string {
+	var sb strings.Builder
+	sb.WriteString("configVersion: v1\n")
+	if settings {
+		fmt.Fprintf(&sb, "settings:\n  executionMinInterval: %s\n  executionBurst: %d\n", iv.String(), b)
+	}
+	for _, k := range kinds {
+		switch k {
+		case "onStartup":
+			sb.WriteString("onStartup: 5\n")
+		case "schedule":
+			sb.WriteString("schedule:\n- name: every-minute\n  crontab: \"* * * * *\"\n  queue: ticks\n")
+		case "kubernetes":
+			sb.WriteString("kubernetes:\n- name: pods\n  kind: Pod\n  queue: pods\n")
+		default:
+			sb.WriteString(c18WebhookYAML(k, 0))
+		}
+	}
+	return sb.String()
+}
+
+// c18LoadHook: what hook.Manager.loadHook does with the `--config` output of a hook.
+func c18LoadHook(text string) (*hook.Hook, error) {
+	return hook.NewHook("c18.sh", "/nonexistent/c18.sh", false, false, "", log.NewNop()).LoadConfig([]byte(text))
+}
+
 func c18Drive(c *Case, lim *rate.Limiter, ts []int64) (grants []int64) {
 	for _, t := range ts {
 		at := c18Base.Add(time.Duration(t))
@@ -118,7 +202,7 @@ func c18Drive(c *Case, lim *rate.Limiter, ts []int64) (grants []int64) {
 
 func runC18(r *Run) {
 	r.CaseTimeout = 120 * time.Second // the operator-level case bounds itself at 50 s and turns inconclusive
-	r.Rule = "(a) the rate.Limiter returned by the real CreateRateLimiter for random (I, B) — I from 1 ms to 5 s incl. values that are not a whole number of ms, B from 0 (= default 1) to 10 — driven through ReserveN(t,1).DelayFrom(t) with 20..80 (thorough 100) explicit request times on a millisecond grid in 7 arrival patterns (one burst, faster than I, slower than I, exactly I, bursts with gaps, mixed, random); every delay is compared with the integer model (tolerance 1 us) and the window bound B+ceil(T/I) is checked exactly on the limiter's own grant times for every window; unthrottled configurations (no settings, I = 0, I < 0) must never delay; a few cases with request times going backwards exercise the clamp and are checked against the skew bound B+ceil((T+S)/I). (b) settings blocks loaded through the real HookConfig.LoadAndValidate -> CreateRateLimiter -> Limit()/Burst(). (c) wall-clock runs (2 quick, 8 thorough) of Hook.RateLimitWait from 1..3 goroutines (queues), start times measured with time.Now(), bound checked with a 40 ms allowance for timer lateness (runtime observation; inconclusive rather than failing when the scheduler was late). (d) ShellOperator.taskHandleHookRun itself (hooks loaded from a generated hooks directory through the real hook manager, `settings` in the hook's --config output) called for queued HookRun tasks from 1..3 goroutines; the hook script logs its own start time; the bound is checked with a 120 ms allowance for process start-up (1 run quick, 4 thorough, one of them unthrottled). (e) the operator's queues (3 corpus + 4 quick / 16 thorough runs): 1-2 generated hooks (the first with `settings`, the second with its own settings or none) with 1-2 schedule bindings in each of 1-3 queues (main and named ones, `queue:` in the hook configuration), schedule events (the real schedule callback of initHookManager) arriving as one burst, a steady stream or at random over ~2.5 intervals and added to the real named queues (NewNamedQueue with the operator's task handler, back-off shortened to 15-40 ms); some bindings FAIL their first 1-3 executions (without allowFailure: the queue retries the task; with allowFailure: no retry); hooks share queues. Every execution START is counted — retries and executions from all queues of the hook — from the time stamps the hook processes write; of each execution the harness knows an interval [lo, hi] containing its grant (lo = the later of: the first event of its binding was queued, the previous execution in the same queue started; hi = its own time stamp), and the bound is checked exactly on every window [lo_i, hi_j] (oracle boundiv; no assumption on process start-up times, S = 0 for a hook living in one queue, 50 ms clock-read skew allowance for several queues). Non-trivial: >= 20 requests of which at least one was delayed; distinct = distinct op-line sequences."
+	r.Rule = "(a) the rate.Limiter returned by the real CreateRateLimiter for random (I, B) — I from 1 ms to 5 s incl. values that are not a whole number of ms, B from 0 (= default 1) to 10 — driven through ReserveN(t,1).DelayFrom(t) with 20..80 (thorough 100) explicit request times on a millisecond grid in 7 arrival patterns (one burst, faster than I, slower than I, exactly I, bursts with gaps, mixed, random); every delay is compared with the integer model (tolerance 1 us) and the window bound B+ceil(T/I) is checked exactly on the limiter's own grant times for every window; unthrottled configurations (no settings, I = 0, I < 0) must never delay; a few cases with request times going backwards exercise the clamp and are checked against the skew bound B+ceil((T+S)/I). 35 % of these cases take the limiter not from CreateRateLimiter but from a HOOK: the same settings written in a hook configuration together with a random non-empty set of other bindings (onStartup, schedule, kubernetes, kubernetesValidating, kubernetesMutating, kubernetesCustomResourceConversion) and loaded by the real Hook.LoadConfig, whose h.RateLimiter is then driven (op line hookcfg; the bound must hold whatever the other bindings are). (b) settings blocks loaded through the real HookConfig.LoadAndValidate -> CreateRateLimiter -> Limit()/Burst(); (b') corpus: settings + each kind of other binding through Hook.LoadConfig. (c) wall-clock runs (2 quick, 8 thorough) of Hook.RateLimitWait from 1..3 goroutines (queues), start times measured with time.Now(), bound checked with a 40 ms allowance for timer lateness (runtime observation; inconclusive rather than failing when the scheduler was late). (d) ShellOperator.taskHandleHookRun itself (hooks loaded from a generated hooks directory through the real hook manager, `settings` in the hook's --config output) called for queued HookRun tasks from 1..3 goroutines; the hook script logs its own start time; the hook has a random set of other bindings (webhooks included) and every task is for an onStartup, a schedule or a kubernetes event; the bound is checked with a 120 ms allowance for process start-up (2 runs quick, 5 thorough, one of them unthrottled). (e) the operator's queues (5 corpus + 4 quick / 16 thorough runs): 1-2 generated hooks (the first with `settings`, the second with its own settings or none; half of the hooks ALSO have webhook bindings - kubernetesValidating / kubernetesMutating / kubernetesCustomResourceConversion - and 30 % an onStartup binding; for the admission bindings the real initValidatingWebhookManager installs the operator's admission handler and 1-2 admission requests per binding are answered through the real router -> op.taskHandler while the queues work: these executions are not queued and are not counted, the queued ones must keep the bound) with 1-2 schedule bindings in each of 1-3 queues (main and named ones, `queue:` in the hook configuration), schedule events (the real schedule callback of initHookManager) arriving as one burst, a steady stream or at random over ~2.5 intervals and added to the real named queues (NewNamedQueue with the operator's task handler, back-off shortened to 15-40 ms); some bindings FAIL their first 1-3 executions (without allowFailure: the queue retries the task; with allowFailure: no retry); hooks share queues. Every execution START is counted — retries and executions from all queues of the hook — from the time stamps the hook processes write; of each execution the harness knows an interval [lo, hi] containing its grant (lo = the later of: the first event of its binding was queued, the previous execution in the same queue started; hi = its own time stamp), and the bound is checked exactly on every window [lo_i, hi_j] (oracle boundiv; no assumption on process start-up times, S = 0 for a hook living in one queue, 50 ms clock-read skew allowance for several queues). Non-trivial: >= 20 requests of which at least one was delayed; distinct = distinct op-line sequences."
 
 	// ---- corpus ----
 	r.One(0, func(c *Case, _ *Rng) {
@@ -189,6 +273,43 @@ func runC18(r *Run) {
 		}
 	})
 
+	// ---- (b') the hook's own limiter: settings + every kind of other binding through Hook.LoadConfig ----
+	r.One(3, func(c *Case, _ *Rng) {
+		c.Desc = "settings (I=250ms, B=2) in a hook configuration with each kind of other binding -> Hook.LoadConfig -> the hook's RateLimiter"
+		c.Nontrivial = true
+		iv, b := 250*time.Millisecond, 2
+		for _, kinds := range [][]string{{"schedule"}, {"schedule", "validating"}, {"kubernetes", "mutating"}, {"onStartup", "conversion"},
+			{"onStartup", "schedule", "kubernetes", "validating", "mutating", "conversion"}} {
+			h, err := c18LoadHook(c18ConfigText(true, iv, b, kinds))
+			line := fmt.Sprintf("hookcfg i=%d b=%d binds=%s", int64(iv), b, strings.Join(kinds, "+"))
+			if err != nil || h.RateLimiter == nil {
+				c.Op(line, "load-error")
+				continue
+			}
+			c.Op(line, c18LimLine(h.RateLimiter))
+			var ts []int64
+			for i := 0; i < 30; i++ {
+				t := int64(0)
+				if i >= 15 {
+					t = int64(i-15) * int64(iv) / 3
+				}
+				ts = append(ts, t)
+			}
+			g := c18Drive(c, h.RateLimiter, ts)
+			c.Oracle(fmt.Sprintf("bound I=%d B=%d starts=%s", int64(iv), b, joinI64(g)))
+		}
+		// no settings: not throttled, whatever the bindings
+		h, err := c18LoadHook(c18ConfigText(false, 0, 0, []string{"schedule", "validating"}))
+		if err != nil || h.RateLimiter == nil {
+			c.Op("hookcfg i=- b=- binds=schedule+validating", "load-error")
+			return
+		}
+		c.Op("hookcfg i=- b=- binds=schedule+validating", c18LimLine(h.RateLimiter))
+		ts := []int64{0, 0, 0, 1e6, 1e6}
+		g := c18Drive(c, h.RateLimiter, ts)
+		c.Oracle(fmt.Sprintf("nodelay reqs=%s starts=%s", joinI64(ts), joinI64(g)))
+	})
+
 	// ---- (a) explicit-time differential ----
 	intervals := []time.Duration{time.Millisecond, 3 * time.Millisecond, 7 * time.Millisecond, 10 * time.Millisecond, 50 * time.Millisecond,
 		100 * time.Millisecond, 333333333 * time.Nanosecond, 250 * time.Millisecond, time.Second, 1500 * time.Millisecond, 3 * time.Second, 5 * time.Second,
@@ -202,18 +323,28 @@ func runC18(r *Run) {
 		}
 		s := htypes.Settings{ExecutionMinInterval: iv, ExecutionBurst: b}
 		cfg := &config.HookConfig{Settings: &s}
-		if rng.Chance(20) {
-			// the same settings written in a hook configuration and loaded by the real loader
-			text := fmt.Sprintf("configVersion: v1\nonStartup: 1\nsettings:\n  executionMinInterval: %s\n  executionBurst: %d\n", iv.String(), b)
-			cfg = &config.HookConfig{}
-			if err := cfg.LoadAndValidate([]byte(text)); err != nil {
-				c.Op(fmt.Sprintf("settings i=%d b=%d", int64(iv), b), "load-error")
+		var lim *rate.Limiter
+		if rng.Chance(35) {
+			// the same settings written in a hook configuration that has other bindings as well (queued
+			// ones and webhooks), loaded the way the hook manager loads it: the real Hook.LoadConfig
+			// (LoadAndValidate + whatever it does to the limiter); the limiter is the hook's own
+			kinds := c18RandomKinds(rng)
+			h, err := c18LoadHook(c18ConfigText(true, iv, b, kinds))
+			line := fmt.Sprintf("hookcfg i=%d b=%d binds=%s", int64(iv), b, strings.Join(kinds, "+"))
+			if err != nil || h.RateLimiter == nil {
+				c.Op(line, "load-error")
 				return
 			}
-			c.Note("settings:loaded")
+			lim = h.RateLimiter
+			c.Op(line, c18LimLine(lim))
+			c.Note("settings:hook-loaded")
+			for _, k := range kinds {
+				c.Note("binding:" + k)
+			}
+		} else {
+			lim = hook.CreateRateLimiter(cfg)
+			c.Op(fmt.Sprintf("settings i=%d b=%d", int64(iv), b), c18LimLine(lim))
 		}
-		lim := hook.CreateRateLimiter(cfg)
-		c.Op(fmt.Sprintf("settings i=%d b=%d", int64(iv), b), c18LimLine(lim))
 		n := rng.Range(20, r.N(80, 100))
 		gi := iv
 		if gi <= 0 {
@@ -315,13 +446,20 @@ func runC18(r *Run) {
 		})
 	}
 	// ---- (d) whole handler: ShellOperator.taskHandleHookRun with a real hook (runtime observation) ----
-	r.Cases(950000, r.N(1, 4), 1, func(c *Case, rng *Rng) {
+	r.Cases(950000, r.N(2, 5), 2, func(c *Case, rng *Rng) {
 		iv := PickOne(rng, []time.Duration{300 * time.Millisecond, 400 * time.Millisecond})
 		b := PickOne(rng, []int{1, 2})
 		queues := rng.Range(1, 3)
 		per := rng.Range(2, 4)
 		throttled := c.Idx != 950003
-		c.Desc = fmt.Sprintf("operator: taskHandleHookRun, I=%v B=%d, %d queues x %d HookRun tasks, throttled=%v", iv, b, queues, per, throttled)
+		// the other bindings of the hook (queued kinds and webhooks) and the kind of event each task is for
+		kinds := c18RandomKinds(rng)
+		if c.Idx == 950000 && !c18Has(kinds, "validating") {
+			kinds = append(kinds, "validating")
+		}
+		btypes := []htypes.BindingType{htypes.OnStartup, htypes.Schedule, htypes.OnKubernetesEvent}
+		c.Desc = fmt.Sprintf("operator: taskHandleHookRun, I=%v B=%d, bindings %s, %d queues x %d HookRun tasks (onStartup / schedule / kubernetes events), throttled=%v",
+			iv, b, strings.Join(kinds, "+"), queues, per, throttled)
 		dir := filepath.Join(r.Scratch, fmt.Sprintf("c18-op-%d", c.Idx))
 		hooks := filepath.Join(dir, "hooks")
 		tmp := filepath.Join(dir, "tmp")
@@ -329,11 +467,7 @@ func runC18(r *Run) {
 		_ = os.MkdirAll(tmp, 0o755)
 		defer os.RemoveAll(dir)
 		logf := filepath.Join(dir, "starts.log")
-		settings := fmt.Sprintf(`, "settings": {"executionMinInterval": "%s", "executionBurst": %d}`, iv.String(), b)
-		if !throttled {
-			settings = ""
-		}
-		script := "#!/bin/bash\nif [[ \"${1:-}\" == \"--config\" ]]; then\n  echo '{\"configVersion\": \"v1\", \"onStartup\": 1" + settings + "}'\n  exit 0\nfi\ndate +%s%N >> " + logf + "\n"
+		script := "#!/bin/bash\nif [[ \"${1:-}\" == \"--config\" ]]; then\ncat <<'EOF'\n" + c18ConfigText(throttled, iv, b, kinds) + "EOF\n  exit 0\nfi\ndate +%s%N >> " + logf + "\n"
 		_ = writeScript(filepath.Join(hooks, "hook.sh"), []byte(script), 0o755)
 		op := shell_operator.NewShellOperator(context.Background(), shell_operator.WithLogger(log.NewNop()))
 		op.MetricStorage = metricstorage.NewMetricStorage(context.Background(), "", true, log.NewNop())
@@ -348,9 +482,19 @@ func runC18(r *Run) {
 			return
 		}
 		if throttled {
-			c.Op(fmt.Sprintf("settings i=%d b=%d", int64(iv), b), c18LimLine(h.RateLimiter))
+			c.Op(fmt.Sprintf("hookcfg i=%d b=%d binds=%s", int64(iv), b, strings.Join(kinds, "+")), c18LimLine(h.RateLimiter))
 		} else {
-			c.Op("settings i=- b=-", c18LimLine(h.RateLimiter))
+			c.Op(fmt.Sprintf("hookcfg i=- b=- binds=%s", strings.Join(kinds, "+")), c18LimLine(h.RateLimiter))
+		}
+		for _, k := range kinds {
+			c.Note("binding:" + k)
+		}
+		// the event kind of every task, drawn before the goroutines start (all randomness from rng)
+		plan := make([][]htypes.BindingType, queues)
+		for q := range plan {
+			for i := 0; i < per; i++ {
+				plan[q] = append(plan[q], PickOne(rng, btypes))
+			}
 		}
 		var wg sync.WaitGroup
 		var mu sync.Mutex
@@ -362,11 +506,16 @@ func runC18(r *Run) {
 			go func(q int) {
 				defer wg.Done()
 				for i := 0; i < per; i++ {
-					bc := bindingcontext.BindingContext{Binding: string(htypes.OnStartup)}
-					bc.Metadata.BindingType = htypes.OnStartup
+					bt := plan[q][i]
+					bc := bindingcontext.BindingContext{Binding: string(bt)}
+					bc.Metadata.BindingType = bt
+					if bt == htypes.OnKubernetesEvent {
+						bc.Type = kemtypes.TypeEvent
+						bc.WatchEvent = kemtypes.WatchEventAdded
+					}
 					t := task.NewTask(task_metadata.HookRun).
 						WithQueueName(fmt.Sprintf("q%d", q)).
-						WithMetadata(task_metadata.HookMetadata{HookName: "hook.sh", BindingType: htypes.OnStartup,
+						WithMetadata(task_metadata.HookMetadata{HookName: "hook.sh", BindingType: bt, Binding: string(bt),
 							BindingContext: []bindingcontext.BindingContext{bc}}).
 						WithQueuedAt(time.Now())
 					mu.Lock()
@@ -433,7 +582,7 @@ func runC18(r *Run) {
 	})
 
 	// ---- (e) the operator's queues: schedule events -> real named queues -> taskHandler -> hook processes ----
-	r.Cases(10, 3, 3, func(c *Case, rng *Rng) { c18RunQueues(r, c, c18CorpusScenario(c.Idx)) })
+	r.Cases(10, 5, 5, func(c *Case, rng *Rng) { c18RunQueues(r, c, c18CorpusScenario(c.Idx)) })
 	r.Cases(960000, r.N(4, 16), 4, func(c *Case, rng *Rng) { c18RunQueues(r, c, c18RandomScenario(rng)) })
 }
 
@@ -488,6 +637,16 @@ type c18Hook struct {
 	throttled bool
 	iv        time.Duration
 	b         int
+	webhooks  []string // "validating", "mutating", "conversion": bindings executed on request, outside the queues
+	onStartup bool
+}
+
+// c18Admit is an admission request for the validating / mutating binding of a hook, sent through the
+// operator's admission handler (not queued) while the queues work.
+type c18Admit struct {
+	at   time.Duration
+	hook int
+	kind string
 }
 
 type c18Event struct {
@@ -500,6 +659,7 @@ type c18Scn struct {
 	hooks   []c18Hook
 	binds   []c18Bind
 	events  []c18Event // sorted by at
+	admits  []c18Admit // sorted by at
 	backoff time.Duration
 }
 
@@ -523,6 +683,24 @@ func c18CorpusScenario(idx int) c18Scn {
 				{hook: 0, name: "qa-0", queue: "qa", crontab: c18Crontab(1)},
 				{hook: 0, name: "qb-0", queue: "qb", crontab: c18Crontab(2)}},
 			events:  []c18Event{{0, 0}, {0, 1}, {0, 2}, {60 * time.Millisecond, 0}, {60 * time.Millisecond, 1}, {60 * time.Millisecond, 2}},
+			backoff: 20 * time.Millisecond}
+	case 13:
+		// the hook's settings hold whatever other bindings it has: here a webhook next to the queued binding
+		return c18Scn{desc: "corpus: one queue, I=400ms B=1, the hook also has a kubernetesValidating binding; 4 schedule events at once",
+			hooks:   []c18Hook{{name: "hook0.sh", throttled: true, iv: 400 * time.Millisecond, b: 1, webhooks: []string{"validating"}}},
+			binds:   []c18Bind{{hook: 0, name: "main-0", queue: "main", crontab: c18Crontab(0)}},
+			events:  []c18Event{{0, 0}, {0, 0}, {5 * time.Millisecond, 0}, {40 * time.Millisecond, 0}},
+			backoff: 20 * time.Millisecond}
+	case 14:
+		// webhooks of every kind + onStartup, two queues, admission requests answered while the queues work
+		return c18Scn{desc: "corpus: hook0 (I=300ms B=2; onStartup, kubernetesMutating, kubernetesValidating, conversion) in main and qa, 2 admission requests meanwhile",
+			hooks: []c18Hook{{name: "hook0.sh", throttled: true, iv: 300 * time.Millisecond, b: 2, onStartup: true,
+				webhooks: []string{"validating", "mutating", "conversion"}}},
+			binds: []c18Bind{{hook: 0, name: "main-0", queue: "main", crontab: c18Crontab(0)},
+				{hook: 0, name: "qa-0", queue: "qa", crontab: c18Crontab(1)}},
+			events: []c18Event{{0, 0}, {0, 1}, {20 * time.Millisecond, 0}, {20 * time.Millisecond, 1}, {90 * time.Millisecond, 0},
+				{90 * time.Millisecond, 1}, {200 * time.Millisecond, 1}},
+			admits:  []c18Admit{{10 * time.Millisecond, 0, "mutating"}, {150 * time.Millisecond, 0, "validating"}},
 			backoff: 20 * time.Millisecond}
 	default:
 		// two queues, burst 2, a failing binding in the named queue, an unthrottled hook sharing both queues
@@ -550,6 +728,22 @@ func c18RandomScenario(rng *Rng) c18Scn {
 			h.throttled, h.iv, h.b = true, PickOne(rng, []time.Duration{200 * time.Millisecond, 350 * time.Millisecond}), PickOne(rng, []int{1, 2})
 		}
 		scn.hooks = append(scn.hooks, h)
+	}
+	// the other bindings of the hooks: webhooks (executed on request, never queued) and onStartup
+	nweb := 0
+	for i := range scn.hooks {
+		if rng.Chance(50) {
+			for _, k := range []string{"validating", "mutating", "conversion"} {
+				if rng.Chance(45) {
+					scn.hooks[i].webhooks = append(scn.hooks[i].webhooks, k)
+				}
+			}
+			if len(scn.hooks[i].webhooks) == 0 {
+				scn.hooks[i].webhooks = []string{PickOne(rng, []string{"validating", "mutating", "conversion"})}
+			}
+			nweb++
+		}
+		scn.hooks[i].onStartup = rng.Chance(30)
 	}
 	queues := []string{"main", "qa", "qb"}[:rng.Range(1, 3)]
 	if rng.Chance(25) {
@@ -596,7 +790,19 @@ func c18RandomScenario(rng *Rng) c18Scn {
 		scn.events = append(scn.events, c18Event{at: at, bind: rng.Intn(len(scn.binds))})
 	}
 	sort.SliceStable(scn.events, func(i, j int) bool { return scn.events[i].at < scn.events[j].at })
-	scn.desc = fmt.Sprintf("queues: I=%v B=%d, %d hooks, %d bindings in %d queues, %d events (%s), back-off %v", iv, b, len(scn.hooks), len(scn.binds), len(queues), n, pat, scn.backoff)
+	// admission requests for the validating / mutating bindings, answered while the queues work
+	for hi, h := range scn.hooks {
+		for _, k := range h.webhooks {
+			if k != "conversion" && rng.Chance(60) {
+				for j := 0; j < rng.Range(1, 2); j++ {
+					scn.admits = append(scn.admits, c18Admit{at: time.Duration(rng.Intn(int(span/time.Millisecond))) * time.Millisecond, hook: hi, kind: k})
+				}
+			}
+		}
+	}
+	sort.SliceStable(scn.admits, func(i, j int) bool { return scn.admits[i].at < scn.admits[j].at })
+	scn.desc = fmt.Sprintf("queues: I=%v B=%d, %d hooks (%d with webhook bindings), %d bindings in %d queues, %d events (%s), %d admission requests, back-off %v",
+		iv, b, len(scn.hooks), nweb, len(scn.binds), len(queues), n, pat, len(scn.admits), scn.backoff)
 	return scn
 }
 
@@ -621,11 +827,19 @@ func c18RunQueues(r *Run, c *Case, scn c18Scn) {
 		bindIdx[bd.name] = i
 	}
 	logOf := func(h int) string { return filepath.Join(dir, fmt.Sprintf("starts-%d.log", h)) }
+	webhookOf := map[string]int{} // webhook binding name -> hook
 	for hi, h := range scn.hooks {
 		var cfg strings.Builder
 		cfg.WriteString("configVersion: v1\n")
 		if h.throttled {
 			fmt.Fprintf(&cfg, "settings:\n  executionMinInterval: %s\n  executionBurst: %d\n", h.iv.String(), h.b)
+		}
+		if h.onStartup {
+			cfg.WriteString("onStartup: 1\n")
+		}
+		for _, k := range h.webhooks {
+			cfg.WriteString(c18WebhookYAML(k, hi))
+			webhookOf[c18WebhookName(k, hi)] = hi
 		}
 		cfg.WriteString("schedule:\n")
 		var cases strings.Builder
@@ -644,7 +858,7 @@ func c18RunQueues(r *Run, c *Case, scn c18Scn) {
 		// the very first thing an execution does is to take its start time
 		script := "#!/bin/bash\nif [[ \"${1:-}\" == \"--config\" ]]; then\ncat <<'EOF'\n" + cfg.String() + "EOF\nexit 0\nfi\n" +
 			"ts=$(date +%s%N)\nctx=$(<\"$BINDING_CONTEXT_PATH\")\nre='\"binding\": *\"([^\"]+)\"'\nname=none\n[[ $ctx =~ $re ]] && name=${BASH_REMATCH[1]}\n" +
-			"echo \"$ts $name\" >> " + logOf(hi) + "\nlim=0\ncase \"$name\" in\n" + cases.String() + "  *) ;;\nesac\n" +
+			"echo \"$ts $name\" >> " + logOf(hi) + "\n[[ -n \"${VALIDATING_RESPONSE_PATH:-}\" ]] && echo '{\"allowed\":true}' > \"$VALIDATING_RESPONSE_PATH\"\nlim=0\ncase \"$name\" in\n" + cases.String() + "  *) ;;\nesac\n" +
 			"n=$(grep -c \" $name\\$\" " + logOf(hi) + ")\nif (( n <= lim )); then echo 'not yet' >&2; exit 1; fi\nexit 0\n"
 		_ = writeScript(filepath.Join(hooksDir, h.name), []byte(script), 0o755)
 	}
@@ -657,11 +871,39 @@ func c18RunQueues(r *Run, c *Case, scn c18Scn) {
 		c.Op("operator-setup", "err "+firstLine(err.Error()))
 		return
 	}
+	// hooks with kubernetesValidating / kubernetesMutating bindings: the operator's admission handler
+	// (initValidatingWebhookManager: HookRun task -> op.taskHandler, not queued), as at start-up
+	var admitHandler *admission.WebhookHandler
+	needAdmission := false
+	for _, h := range scn.hooks {
+		for _, k := range h.webhooks {
+			if k != "conversion" {
+				needAdmission = true
+			}
+		}
+	}
+	if needAdmission {
+		ca := filepath.Join(dir, "ca.crt")
+		_ = os.WriteFile(ca, []byte("not a certificate: only read into CABundle\n"), 0o644)
+		hd, err := op.VerifC18InitAdmission(ca, tmp)
+		if err != nil {
+			c.Op("operator-setup", "admission-init-error "+firstLine(err.Error()))
+			return
+		}
+		if hd == nil {
+			c.Op("operator-setup", "no-admission-handler")
+			return
+		}
+		admitHandler = hd
+	}
 	for _, h := range scn.hooks {
 		hk := op.HookManager.GetHook(h.name)
 		if hk == nil {
 			c.Op("operator-setup", "hook-not-loaded")
 			return
+		}
+		if len(h.webhooks) > 0 {
+			c.Note("hook-with-webhook-bindings")
 		}
 		if h.throttled {
 			c.Op(fmt.Sprintf("settings i=%d b=%d", int64(h.iv), h.b), c18LimLine(hk.RateLimiter))
@@ -692,6 +934,44 @@ func c18RunQueues(r *Run, c *Case, scn c18Scn) {
 	wall0 := t0.UnixNano()
 	for name := range queueNames {
 		op.TaskQueues.GetByName(name).Start()
+	}
+	// the admission requests: each from its own goroutine (the webhook server's), through the real router
+	var awg sync.WaitGroup
+	admitAns := make([]string, len(scn.admits))
+	for i, a := range scn.admits {
+		awg.Add(1)
+		go func(i int, a c18Admit) {
+			defer awg.Done()
+			defer func() {
+				if p := recover(); p != nil {
+					admitAns[i] = "panic"
+				}
+			}()
+			if d := a.at - time.Since(t0); d > 0 {
+				time.Sleep(d)
+			}
+			body := fmt.Sprintf(`{"apiVersion":"admission.k8s.io/v1","kind":"AdmissionReview","request":{"uid":"c18-%d","kind":{"group":"","version":"v1","kind":"Pod"},"resource":{"group":"","version":"v1","resource":"pods"},"name":"p","namespace":"default","operation":"CREATE","object":{"apiVersion":"v1","kind":"Pod","metadata":{"name":"p"}}}}`, i)
+			req := httptest.NewRequest(http.MethodPost, "/x", bytes.NewReader([]byte(body)))
+			req.URL.Path = "/hooks/" + string_helper.SafeURLString(c18WebhookName(a.kind, a.hook))
+			req.Header.Set("Content-Type", "application/json")
+			rec := httptest.NewRecorder()
+			admitHandler.Router.ServeHTTP(rec, req)
+			var rv struct {
+				Response *struct {
+					Allowed bool `json:"allowed"`
+				} `json:"response"`
+			}
+			switch {
+			case rec.Code != http.StatusOK:
+				admitAns[i] = fmt.Sprintf("http-%d", rec.Code)
+			case json.Unmarshal(rec.Body.Bytes(), &rv) != nil || rv.Response == nil:
+				admitAns[i] = "bad-answer"
+			case !rv.Response.Allowed:
+				admitAns[i] = "denied"
+			default:
+				admitAns[i] = "allowed"
+			}
+		}(i, a)
 	}
 	// feed the events: one tick of the binding's crontab through the real schedule callback
 	firstQueued := map[int]int64{}
@@ -739,6 +1019,15 @@ func c18RunQueues(r *Run, c *Case, scn c18Scn) {
 		}
 		time.Sleep(5 * time.Millisecond)
 	}
+	// ... and every admission request has been answered
+	admitsDone := make(chan struct{})
+	go func() { awg.Wait(); close(admitsDone) }()
+	select {
+	case <-admitsDone:
+	case <-time.After(time.Until(deadline) + time.Second):
+		c.Inconcl = "the admission requests were not answered in 50 s"
+		return
+	}
 	cancel()
 	// the wall clock (date in the hook processes, UnixNano here) must not have been stepped meanwhile
 	if d := (time.Now().UnixNano() - wall0) - int64(time.Since(t0)); d > int64(2*time.Millisecond) || d < -int64(2*time.Millisecond) {
@@ -747,6 +1036,7 @@ func c18RunQueues(r *Run, c *Case, scn c18Scn) {
 	}
 	// the executions, as the hook processes recorded them
 	var execs []c18Exec
+	webhookRuns := 0
 	perBind := map[int]int{}
 	for hi := range scn.hooks {
 		lb, _ := os.ReadFile(logOf(hi))
@@ -757,6 +1047,10 @@ func c18RunQueues(r *Run, c *Case, scn c18Scn) {
 			}
 			var v int64
 			if _, err := fmt.Sscan(f[0], &v); err != nil {
+				continue
+			}
+			if wh, ok := webhookOf[f[1]]; ok && wh == hi {
+				webhookRuns++ // executed on request, not queued: not one of the executions the property counts
 				continue
 			}
 			bi, ok := bindIdx[f[1]]
@@ -785,6 +1079,19 @@ func c18RunQueues(r *Run, c *Case, scn c18Scn) {
 		}
 	}
 	c.Op(fmt.Sprintf("operator-queues events=%d", len(scn.events)), status)
+	if len(scn.admits) > 0 {
+		// every admission request is answered by exactly one execution of its hook
+		allowed, other := 0, ""
+		for _, a := range admitAns {
+			if a == "allowed" {
+				allowed++
+			} else {
+				other = " " + a
+			}
+		}
+		c.Op(fmt.Sprintf("operator-webhooks sent=%d", len(scn.admits)), fmt.Sprintf("answered=%d executed=%d%s", allowed, webhookRuns, other))
+		c.Note("with-admission-requests")
+	}
 	// lo: the later of "the first event of this binding was queued" and "the previous execution in the
 	// same queue started" (one worker per queue: its executions, retries included, are sequential).
 	sort.Slice(execs, func(i, j int) bool { return execs[i].hi < execs[j].hi })
